@@ -5,10 +5,23 @@
   interleaving of file-system operations with watcher, scan and query steps.
 -/
 import CdiModel.WatchMulti
+import CdiModel.Locks
+import CdiModel.Generated.Access
 namespace Cdi.Watch
 open Cdi
 
 /-! ### Fact obligation (F7) -/
+
+/-- F9 (regenerated from pkg/cdi/cache.go on every run): the steps `scan` and `query` of the machine are atomic
+with respect to each other because, in every exported method and in the watcher goroutine, a scan of the Spec
+directories happens with the cache mutex held (F9_accesses_guarded, C12) and its result is published before the
+mutex is released: no other operation of the cache can fall between a scan and the publication of what it saw.
+(File-system operations can - the machine splits update and scan for that.)  The watcher goroutine does scan. -/
+theorem F9_scan_and_publication_atomic :
+    Generated.accessTable.all (fun e => Locks.scanPublishes (Locks.strip e.2)) = true ∧
+    Generated.accessTable.any (fun e => e.1 == "watch.watch" && e.2.contains (.read Locks.fsScan)) = true ∧
+    Generated.accessTable.all (fun e => Locks.guarded false (Locks.strip e.2)) = true := by decide
+
 
 /-- F7: the watcher's event mask on Linux contains Create (files moved or linked into a Spec
 directory produce no other event), besides Write, Rename and Remove -/
